@@ -309,12 +309,13 @@ func H_C01_escaperFollowsSet() { H_C10_twoSets() }
 // same through a function that calls Runtime.YieldBlock; (5)-(7) writers as block
 // parameters, rebound between executions, writeJson; (8) a user-supplied SafeWriter
 // registered under the name of a built-in writer (raw, unsafe, safeHtml) as a Set global or
-// an Execute variable is the one that renders. The ordinary actions are escaped by the
+// an Execute variable is the one that renders; (9) after the failure of a template run by
+// exec has been absorbed by isset / try, output is written and escaped again. The ordinary actions are escaped by the
 // Set's escaper, exactly once.
 //
 //gosym:reach rendered
 func H_C01_writerCommands() {
-	sc := ndChoice("scenario", 9)
+	sc := ndChoice("scenario", 10)
 	esc := ndChoice("esc", 3)
 	wi := 0
 	if sc <= 1 || sc == 8 {
@@ -339,6 +340,8 @@ func H_C01_writerCommands() {
 		"/param.jet", `{{ block cell(wr=raw, v="<hr>") }}{{ v | wr }}{{ end }}|{{ yield cell(wr=safeHtml, v=x) }}|{{ yield cell(wr=raw, v=x) }}`,
 		"/bound.jet", `<{{ x | wv }}>`,
 		"/json.jet", `<{{ x | writeJson }}>{{ writeJson(x) }}`,
+		"/bad.jet", `{{ "<d>" | raw }}{{ range one }}{{ boom() }}{{ end }}`,
+		"/absorbed.jet", `{{ isset(exec("/bad.jet")) }}<{{ x }}>{{ x | raw }}|{{ try }}{{ exec("/bad.jet") }}{{ end }}<{{ x }}>text`,
 		"/own.jet", `<{{ x | `+w+` }}>{{ `+w+`: x }}{{ try }}{{ x | `+w+` }}{{ end }}{{ range one }}{{ x | `+w+` }}{{ end }}`,
 	)
 	vars := func() VarMap {
@@ -396,6 +399,13 @@ func H_C01_writerCommands() {
 			out, err = hxExec(set, "/bound.jet", v2, nil)
 			want = "<(#" + x + "#)>"
 		}
+	case 9:
+		// a template run by exec fails while its output is being discarded, and the failure
+		// is absorbed (by isset, by try): what follows is written, escaped as ever
+		v := vars()
+		v.Set("one", []int{1})
+		out, err = hxExec(set, "/absorbed.jet", v, nil)
+		want = c01Want(esc, "false") + "<" + c01Want(esc, x) + ">" + x + "|<" + c01Want(esc, x) + ">text"
 	case 8:
 		// a SafeWriter of the user's own under the name of a built-in one (or under a
 		// name of its own), given as a Set global or as an Execute variable: it is the
